@@ -179,6 +179,9 @@ pub fn gen_random(seed: u64, idx: u64) -> Plan {
             }
         }
     }
+    for c in conns.iter_mut() {
+        fit_c2s(c);
+    }
     Plan {
         property: "C16".into(),
         seed: mix(seed, idx),
